@@ -9,7 +9,6 @@ package streams
 //@ devirtall EntryPointI => *EntryPoint
 //@ devirtall FlowGraphNodeI => *FlowGraphNode
 //@ devirtall ConnectionEdgeI => *ConnectionEdge
-//@ pure APIStreamI.GetType
 //@ pure APIStreamI.GetURL
 //@ pure APIStreamI.GetName
 
@@ -24,7 +23,7 @@ package streams
 //@ ghost var fl gmap[int]*streamflow.Flow
 //@ ghost var flen int
 //@ ghost func fw(f internaltypes.FlowI) *streamflow.Flow = f.(*streamflow.Flow)
-//@ ghost func dirOf(f internaltypes.FlowI, a publictypes.APIStreamI) *streamflow.FlowDirection = ite(a.GetType() == publictypes.StreamTypeRequest, fw(f).request, fw(f).response)
+//@ ghost func dirOf(f internaltypes.FlowI, a publictypes.APIStreamI) *streamflow.FlowDirection = ite(gWalk[a] == publictypes.StreamTypeRequest, fw(f).request, fw(f).response)
 
 //@ pure Flow.GetExecutionContext
 // metrics counters (trusted): they start at zero, only grow and do not wrap, so a counter is positive after an increment
@@ -78,6 +77,7 @@ package streams
 //@ func (*Stream).executeRes
 //@   prop C04, C05
 //@   opaque follows
+//@   requires[walks-the-response-direction] gWalk[apiStream] == publictypes.StreamTypeResponse
 //@   requires s != nil && s.apiStreams != nil && s.metricsData != nil && rmOK(s.resources) && listsFit(apiStream, actions) && xlen >= 0 && flen >= 0
 //@   requires resultOK(flowsToExecute) && graphOK() && rankedOK()
 //@   requires shortCircuit != nil ==> nodeArgOK(shortCircuit.node) && !ifacenil(shortCircuit.flow) && flowOK(shortCircuit.flow)
@@ -109,8 +109,14 @@ package streams
 //@   modifies nothing
 //@ extern flowMetricsData.incrementRequestsThroughFlows
 //@   modifies nothing
-//@ iface APIStreamI.SetType
+//@ iface APIStreamI.GetType
 //@   modifies nothing
+//@   ensures result == gWalk[self]
+// turning the walk: from now on this transaction (and no other) walks the given direction of its flows
+//@ iface APIStreamI.SetType
+//@   params streamType
+//@   modifies gWalk
+//@   ensures[turned] gWalk[self] == streamType && forall(o, publictypes.APIStreamI, o != self ==> gWalk[o] == old(gWalk[o]))
 // the filter tree (its selection is C03's subject) holds the flows BuildFlows built: well-formed ones
 //@ iface FilterTreeI.GetFlow
 //@   modifies nothing
@@ -123,10 +129,11 @@ package streams
 //@ func (*Stream).executeReq
 //@   prop C04, C05
 //@   opaque follows
+//@   requires[walks-the-request-direction] gWalk[apiStream] == publictypes.StreamTypeRequest
 //@   ghostlocal nuser int
 //@   requires s != nil && s.apiStreams != nil && s.metricsData != nil && rmOK(s.resources) && !ifacenil(s.filterTree) && listsFit(apiStream, actions) && xlen >= 0 && flen >= 0
 //@   requires resultOK(flowsToExecute) && graphOK() && rankedOK()
-//@   modifies now, xn, xo, xp, xlen, xpar, drops, fl, flen, actions.Request.Actions, actions.Response.Actions, allof(flowMetricsData.totalFlowExecutionTimeNs), allof(flowMetricsData.totalFlowExecutions), allof(flowMetricsData.requestsThroughFlowsCounter), allof(flowMetricsData.avgFlowExecutionTime), smapof(regCtx(s.resources).ctx)
+//@   modifies gWalk, now, xn, xo, xp, xlen, xpar, drops, fl, flen, actions.Request.Actions, actions.Response.Actions, allof(flowMetricsData.totalFlowExecutionTimeNs), allof(flowMetricsData.totalFlowExecutions), allof(flowMetricsData.requestsThroughFlowsCounter), allof(flowMetricsData.avgFlowExecutionTime), smapof(regCtx(s.resources).ctx)
 //@   allocates ProcessorIO, FilterResult, shortCircuitOperation
 //@   on entry do nuser = 0
 //@   on call executeFlow 2 after do nuser = nuser + 1
@@ -153,7 +160,7 @@ package streams
 //@   opaque follows
 //@   requires s != nil && s.metricsData != nil && s.metricsData.procMetricsData != nil && rmOK(s.resources) && !ifacenil(s.filterTree) && listsFit(apiStream, actions) && xlen >= 0 && flen >= 0
 //@   requires graphOK() && rankedOK()
-//@   modifies s.apiStreams, now, xn, xo, xp, xlen, xpar, drops, fl, flen, actions.Request.Actions, actions.Response.Actions, allof(flowMetricsData.totalFlowExecutionTimeNs), allof(flowMetricsData.totalFlowExecutions), allof(flowMetricsData.requestsThroughFlowsCounter), allof(flowMetricsData.avgFlowExecutionTime), smapof(regCtx(s.resources).ctx)
+//@   modifies s.apiStreams, gWalk, now, xn, xo, xp, xlen, xpar, drops, fl, flen, actions.Request.Actions, actions.Response.Actions, allof(flowMetricsData.totalFlowExecutionTimeNs), allof(flowMetricsData.totalFlowExecutions), allof(flowMetricsData.requestsThroughFlowsCounter), allof(flowMetricsData.avgFlowExecutionTime), smapof(regCtx(s.resources).ctx)
 //@   allocates ProcessorIO, FilterResult, shortCircuitOperation, Stream, RequestStream, ResponseStream
 //@   ensures[no-match-passes-through] !found ==> result == nil && flen == old(flen) && xlen == old(xlen) && actions.Request.Actions == old(actions.Request.Actions) && actions.Response.Actions == old(actions.Response.Actions)
 //@   ensures[trace-grows] xlen >= old(xlen) && flen >= old(flen) && forall(i, 0, old(flen), fl[i] == old(fl)[i])
